@@ -5,6 +5,7 @@ import (
 	"bytes"
 	"fmt"
 	"io"
+	"math/bits"
 	"math/rand"
 	"strings"
 	"testing/iotest"
@@ -73,6 +74,31 @@ func (c16) Gen(tier string, seed int64, emit func([]Ev)) {
 	fars := []int{65535, 65536, 65537, 70001}
 	if tier == "thorough" {
 		fars = append(fars, 131071, 131072, 131073, 200000, 65534, 65540)
+	}
+	// gaps of millions of bytes without a sync byte (described as pre, fill x n, suf; judged through Sync!GapLemma)
+	gaps := []int{1<<20 + 5, 1<<22 + 1, 20000003}
+	if tier == "thorough" {
+		gaps = append(gaps, 1<<21, 1<<23+7, 1<<24+3, 1<<26+1, 50000000)
+	}
+	for k, g := range gaps {
+		pre := rndBytes(r, r.Intn(6))
+		for i := range pre {
+			if pre[i] == 0x47 {
+				pre[i] = 0x46
+			}
+		}
+		if k%2 == 1 {
+			pre = append(pre, 0x47, 0x00, 0x05) // a rejected candidate whose header reaches into the gap
+		}
+		suf := append([]byte{0x47, 0x01, 0x00, 0x10 | byte(r.Intn(16))}, bytes.Repeat([]byte{0x48}, 184+r.Intn(100))...)
+		if k%3 == 2 {
+			suf = append([]byte{0x47, 0x47, 0x40, 0x00}, suf...) // false candidates right behind the gap
+		}
+		emit([]Ev{{"op": "syncgap", "pre": B(pre), "fill": []int{0xff, 0x00, 0x48}[k%3], "n": g, "suf": B(suf), "stream": []int{},
+			"reader": []string{"bufio4096", "slice", "bufio:752", "bufio16"}[k%4]}})
+		if k == 0 { // and a gap that ends the stream: not found
+			emit([]Ev{{"op": "syncgap", "pre": B(pre), "fill": 0xff, "n": g, "suf": []int{0x47, 0x01}, "stream": []int{}, "reader": "bufio4096"}})
+		}
 	}
 	for k, g := range fars {
 		st := bytes.Repeat([]byte{[]byte{0xff, 0x00, 0x48}[k%3]}, g)
@@ -287,6 +313,9 @@ func (c16) GenRows(rows []Ev, tier string, seed int64, emit func([]Ev)) {
 func (c16) Exec(h []Ev) []Ev {
 	for _, e := range h {
 		s := GB(e["stream"])
+		if GS(e["op"]) == "syncgap" { // described, not transmitted: pre, fill x n, suf
+			s = append(append(append([]byte(nil), GB(e["pre"])...), bytes.Repeat([]byte{byte(GI(e["fill"]))}, GI(e["n"]))...), GB(e["suf"])...)
+		}
 		keep := append([]byte(nil), s...)
 		var rd packet.PeekScanner
 		var rest io.Reader
@@ -350,6 +379,9 @@ func (c16) Exec(h []Ev) []Ev {
 				}
 			}
 			left, _ := io.ReadAll(rest)
+			if len(left) > 1<<16 {
+				left = left[:1<<16] // (a search that stopped inside a long gap: enough to show it)
+			}
 			e["rest"] = B(left)
 			e["input_same"] = bytes.Equal(s, keep)
 		})
@@ -360,6 +392,9 @@ func (c16) Exec(h []Ev) []Ev {
 func (c16) Class(e Ev) string {
 	if GS(e["op"]) == "issynced" {
 		return fmt.Sprintf("issynced/%v/%s", GBool(e["ok"]), GS(e["err"]))
+	}
+	if GS(e["op"]) == "syncgap" {
+		return fmt.Sprintf("syncgap/%s/%s/n>=2^%d", GS(e["reader"]), GS(e["err"]), bits.Len(uint(GI(e["n"])))-1)
 	}
 	s := GB(e["stream"])
 	nsync := bytes.Count(s, []byte{0x47})
